@@ -131,7 +131,7 @@ def main():
         ],
         "checks": checks,
         "not_applicable": na,
-        "notes": "Static analysis only: no generated strum code is executed (atoms of the decision-tree normaliser are evaluated on representative inputs by their definition). See DESIGN.md, section 14 for the construction report: 200 seeded changes reported (five rounds), 76 behaviour-preserving controls (one known conservative alarm, refactors/R30-1). known_findings.json lists genuine defects (open / fixed).",
+        "notes": "Static analysis only: no generated strum code is executed (atoms of the decision-tree normaliser are evaluated on representative inputs by their definition). See DESIGN.md, section 14 for the construction report: 200 seeded changes reported (five rounds), 82 behaviour-preserving controls (one known conservative alarm, refactors/R30-1). known_findings.json lists genuine defects (open / fixed).",
     }
     with open(os.path.join(VERIF, "MANIFEST.json"), "w") as f:
         json.dump(m, f, indent=1)
